@@ -97,6 +97,18 @@ PROPS = {
                            'syntactic and name-based. ') + LEDGER_NOTE,
             'not_decided': ['delta <= 1e10 with a regulariser (tau has no positive lower bound)', 'recorded best objective never increases (follows from C04, not re-proved here)',
                             'number of interpolation points between 2 and the maximum']},
+    'C07': {'bundles': ['inputs', 'paramcheck'], 'level': 'proof',
+            'level_text': 'The prologue of solve is executed symbolically (real scalars, parameter table, symbolic user_params dict): for each of 15 listed kinds of invalid value no path '
+                          'reaches the first evaluation, and the early return is the input-error result (flag, nf == 0, non-empty message, constructor call conformance); '
+                          'check_float / check_integer / check_bool are verified against their specification for every value incl. NaN and None (binary64 / Z); ParameterList.__call__ '
+                          'raises ValueError exactly for an unknown key or a second update, and no literal-key update in solve / solve_main can be a second update; the nine documented '
+                          'exit-code constants are on the result; every ExitInformation site uses a documented code with a stem and a non-empty message; all 400+ resolved intra-package '
+                          'calls conform to their callee\'s signature (syntactic).',
+            'level_note': 'Domain Rd + ParamsMixin: reals for rhobeg/rhoend/lh, Z for npt/maxfun/n; np.min(xu - xl) is a ghost real; A-params: check_all_params returns True only inside '
+                          'the range table (its shape and the three check_* functions are verified in the paramcheck bundle). Argument TYPES are as documented (ndarrays, numbers, callables); '
+                          'a bool given for an int parameter is accepted by check_integer (bool is an int in Python) and not counted as wrongly typed. A-exc: exceptions raised by NumPy on '
+                          'malformed arrays (wrong shapes) are outside the claim. NOT decided: printing (str) totality as its own obligation; "never raises" after the prologue (C08).',
+            'not_decided': ['str(result) total', 'RuntimeError from projection initialisation with npt != n+1 (the statement\'s own limitation D14)']},
     'C20': {'bundles': ['jsonrt'], 'level': 'proof',
             'level_text': 'Field-wise: to_dict writes exactly the 12 fields, each with the documented encoding (contract on the real body); from_dict decodes each key into the '
                           'field of the same name through the real constructor (call conformance, parameter order); 24 round-trip lemmas DEC_f(json(ENC_f(v))) == norm_f(v) over '
